@@ -63,7 +63,7 @@ var soupTokens = []string{
 	"import", "package", "-", "+", "/", "==", "_|_", "_", `"`, `\`, "#", "<=",
 }
 
-var hostileRunes = []string{`"`, `'`, `\`, `#`, "\n", "\r", "\t", "a", " ", "\x00", "\x7f", "é", " ", "�", "\U0001F604"}
+var hostileRunes = []string{`"`, `'`, `\`, `#`, "\n", "\r", "\t", "a", " ", "\x00", "\x7f", "é", "\u2028", "�", "\U0001F604"}
 var hostileBytes = []string{"\x80", "\xff", "\xc3"}
 
 type form struct {
